@@ -103,6 +103,8 @@ def run(ctx: Ctx):
     )
     ctx.guarded(update_degree, ctx)
     ctx.guarded(accept_guarded, ctx)
+    res.rule("RIDGE-LIVE", "ridge ALS of the CP and Tucker regressors: the system matrix of every least-squares solve in fit (directly or through a helper, following parameter binding and defaults) depends on the ridge hyper-parameter self.reg_W -- all blocks minimise the same penalised objective", floor=4)
+    ctx.guarded(ridge_live, ctx)
     from .affine import block_independent
 
     res.rule("BLOCK-INDEPENDENT", "the HALS NNLS inner solver's row update is an exact coordinate minimisation: in the affine-form domain of rules/affine.py the stored row does not depend on the old row after cancellation, for every combination of the sparsity / ridge coefficients (a damped step can increase the penalised objective)", floor=4)
@@ -256,3 +258,128 @@ def accept_guarded(ctx: Ctx):
             res.instance("ACCEPT-GUARDED", f"{q}: {src(a)[:60]}", sample={"line": a.lineno, "guard": src(g.test)[:80] if g is not None else None, "ok": ok})
             if not ok:
                 ctx.finding("ACCEPT-GUARDED", f, a, f"the line-search extrapolation is accepted by `{src(a)[:80]}` but {why}: an accepted jump can then increase the objective", construct=f"{f.name}: acceptance {src(a)[:60]}")
+
+
+# ---------------------------------------------------------------------------------
+# RIDGE-LIVE: every block update of a ridge ALS minimises the same (penalised) objective
+# ---------------------------------------------------------------------------------
+RIDGE_DRIVERS = [
+    # (fit method, hyper-parameter attribute)
+    ("tensorly.regression.cp_regression.CPRegressor.fit", "reg_W"),
+    ("tensorly.regression.tucker_regression.TuckerRegressor.fit", "reg_W"),
+]
+
+
+def _depends(expr, tainted_names, attr, self_name):
+    for n in ast.walk(expr):
+        if isinstance(n, ast.Attribute) and n.attr == attr and is_name(n.value, self_name):
+            return True
+        if isinstance(n, ast.Name) and n.id in tainted_names:
+            return True
+    return False
+
+
+def _closure(fnode, seeds, attr, self_name):
+    """names that (may) depend on the hyper-parameter inside one function body"""
+    t = set(seeds)
+    changed = True
+    while changed:
+        changed = False
+        for s in own_scope_nodes(fnode):
+            if isinstance(s, ast.Assign) and _depends(s.value, t, attr, self_name):
+                # the solution of a block problem depends on the ridge, of course: that is the model,
+                # not a carrier of the ridge term into the next block's system matrix
+                if any(isinstance(c, ast.Call) and call_name(c) in ("solve", "lstsq", "_ridge_solve") or (isinstance(c, ast.Call) and any(isinstance(x, ast.Call) and call_name(x) in ("solve", "lstsq") for x in ast.walk(c) if x is not c)) for c in ast.walk(s.value)):
+                    continue
+                for tg in s.targets:
+                    names = [tg] if isinstance(tg, ast.Name) else ([e for e in tg.elts if isinstance(e, ast.Name)] if isinstance(tg, (ast.Tuple, ast.List)) else [])
+                    for n in names:
+                        if n.id not in t:
+                            t.add(n.id)
+                            changed = True
+            elif isinstance(s, ast.AugAssign) and isinstance(s.target, ast.Name) and _depends(s.value, t, attr, self_name) and s.target.id not in t:
+                t.add(s.target.id)
+                changed = True
+    return t
+
+
+def _reaching(fnode, at_node, name, depth=0):
+    """the value last assigned to `name` before `at_node`, looking backwards through the
+    enclosing statement lists (the other arm of an `if` is never consulted)"""
+    parent, field_of = {}, {}
+    for p in ast.walk(fnode):
+        for fld in ("body", "orelse", "finalbody", "handlers"):
+            seq = getattr(p, fld, None)
+            if isinstance(seq, list):
+                for i, c in enumerate(seq):
+                    if isinstance(c, ast.AST):
+                        parent[c] = (p, seq, i)
+    # the statement containing at_node
+    stmt = None
+    for st in parent:
+        if isinstance(st, ast.stmt) and any(x is at_node for x in ast.walk(st)):
+            if stmt is None or any(x is st for x in ast.walk(stmt)):
+                stmt = st
+    cur = stmt
+    while cur is not None and cur in parent:
+        p, seq, i = parent[cur]
+        for prev in reversed(seq[:i]):
+            if isinstance(prev, ast.Assign) and any(is_name(t, name) for t in prev.targets):
+                return prev.value
+            if isinstance(prev, (ast.If, ast.For, ast.While, ast.Try, ast.With)) and any(isinstance(x, ast.Assign) and any(is_name(t, name) for t in x.targets) for x in ast.walk(prev)):
+                return None  # assigned inside a compound statement: fall back to the flow-insensitive answer
+        cur = p if isinstance(p, ast.stmt) else None
+    return None
+
+
+def ridge_live(ctx: Ctx):
+    """Exact block-coordinate descent needs every block to minimise the *same* objective.  With a
+    ridge hyper-parameter every least-squares solve of the sweep must therefore carry the ridge
+    term: the system matrix of each `solve` depends (data dependence, through helper parameters
+    and their defaults) on the hyper-parameter.  A block solved without it minimises another
+    objective, and the penalised objective can rise in that block's step."""
+    from ..model import bind_call
+
+    repo, res = ctx.repo, ctx.res
+    for q, attr in RIDGE_DRIVERS:
+        f = repo.func(q)
+        self_name = f.all_params[0]
+        if not any(isinstance(n, ast.Attribute) and n.attr == attr and is_name(n.value, self_name) for n in ast.walk(f.node)):
+            raise AnalysisError(f"RIDGE-LIVE: {q} no longer reads self.{attr}; the driver table is stale")
+        tainted = _closure(f.node, set(), attr, self_name)
+        n_sites = 0
+        for c in own_scope_nodes(f.node):
+            if not isinstance(c, ast.Call):
+                continue
+            nm = call_name(c)
+            if nm in ("solve", "lstsq") and c.args:
+                n_sites += 1
+                mat = c.args[0]
+                if isinstance(mat, ast.Name):
+                    rv = _reaching(f.node, c, mat.id)
+                    if rv is not None:
+                        mat = rv
+                ok = _depends(mat, tainted - ({c.args[0].id} if isinstance(c.args[0], ast.Name) and mat is not c.args[0] else set()), attr, self_name)
+                res.instance("RIDGE-LIVE", f"{f.qname}: {src(c)[:60]}", sample={"line": c.lineno, "system_matrix": src(c.args[0])[:60], "depends_on_ridge": ok})
+                if not ok:
+                    ctx.finding("RIDGE-LIVE", f, c, f"the system matrix `{src(c.args[0])[:70]}` of this block update does not depend on `self.{attr}`: this block minimises the unpenalised fit while the others minimise fit + ridge, so the sweep is not block-coordinate descent on one objective and the penalised objective can rise", construct=f"{f.name}: solve without self.{attr}: {src(c)[:60]}")
+                continue
+            ct = repo.resolve_call(f, f.module, c)
+            if ct.kind != "repo" or len(ct.funcs) != 1 or ct.cha:
+                continue
+            g = ct.funcs[0]
+            inner = [x for x in own_scope_nodes(g.node) if isinstance(x, ast.Call) and call_name(x) in ("solve", "lstsq") and x.args]
+            if not inner or not g.module.name.startswith("tensorly.regression"):
+                continue
+            b = bind_call(c, g, ct.bound)
+            # parameters of the helper that carry the ridge at this call site
+            carried = {p for p, a in b.params.items() if _depends(a, tainted, attr, self_name)}
+            inner_taint = _closure(g.node, carried, "\0", "\0")
+            for x in inner:
+                n_sites += 1
+                ok = _depends(x.args[0], inner_taint, "\0", "\0")
+                res.instance("RIDGE-LIVE", f"{f.qname}: {src(c)[:50]} -> {g.name}: {src(x)[:40]}", sample={"line": c.lineno, "helper": g.name, "ridge_carried_by": sorted(carried), "depends_on_ridge": ok})
+                if not ok:
+                    ctx.finding("RIDGE-LIVE", f, c, f"`{src(c)[:70]}` reaches `{src(x)[:50]}` in `{g.name}` with no argument that depends on `self.{attr}` (the helper's ridge parameter keeps its default): this block minimises the unpenalised fit while the others minimise fit + ridge, so the sweep is not block-coordinate descent on one objective", construct=f"{f.name}: {src(c)[:60]} solves without self.{attr}")
+        if n_sites == 0:
+            raise AnalysisError(f"RIDGE-LIVE: no least-squares solve found in {q}; the driver table is stale")
